@@ -383,7 +383,9 @@ def probe_decisions(side_client, consts, proxy_of):
 
 
 EXPECTED = {"default": (False, False, True, False), "public": (False, True, True, False), "classic": (True, True, False, True),
-            "classic_shared": (True, True, False, True)}
+            "classic_shared": (True, True, False, True),
+            # opened from the application's mapping while that also said allow_all_attrs
+            "public_all": (True, True, True, False)}
 # the application's one configuration mapping, handed to every "public" connection and to "classic_shared" ones
 SHARED_PUBLIC = {"allow_public_attrs": True}
 
@@ -443,7 +445,13 @@ def histories(chk, g, consts, rnd, max_paths):
                     cur = dst
                     continue
                 labels.append(label)
-                if label.startswith("Open"):
+                if label.startswith("Edit"):
+                    # the application edits its own mapping, in place
+                    if g.nodes[dst]["appall"]:
+                        SHARED_PUBLIC["allow_all_attrs"] = True
+                    else:
+                        SHARED_PUBLIC.pop("allow_all_attrs", None)
+                elif label.startswith("Open"):
                     kind = label.split('"')[1]
                     live[len(g.nodes[dst]["conns"])] = HistConn(kind)
                 else:
@@ -452,18 +460,22 @@ def histories(chk, g, consts, rnd, max_paths):
                 chk.evaluated()
                 st = g.nodes[dst]
                 for i, hc in live.items():
-                    want = EXPECTED[st["conns"][i - 1]["kind"]]
+                    rec = st["conns"][i - 1]
+                    want = EXPECTED["public_all" if (rec["kind"] == "public" and rec.get("a")) else rec["kind"]]
                     got = hc.probe(consts)
                     if got != want:
                         chk.violation("isolation:%s" % hc.kind, "C06 after %s the %s connection #%d allows (read private, read public, "
                                       "read exposed, write public) = %s, its own configuration says %s" % (labels, hc.kind, i, got, want),
                                       {"mode": "history", "labels": labels})
-                if SHARED_PUBLIC != {"allow_public_attrs": True}:
+                app = {"allow_public_attrs": True}
+                if st.get("appall"):
+                    app["allow_all_attrs"] = True
+                if SHARED_PUBLIC != app:
                     chk.violation("shared-config-mutated", "C06 after %s the application's configuration mapping, which it passes to "
                                   "several connections, was modified by a connection: %s" % (labels, dict(SHARED_PUBLIC)),
                                   {"mode": "history", "labels": labels})
                     SHARED_PUBLIC.clear()
-                    SHARED_PUBLIC["allow_public_attrs"] = True
+                    SHARED_PUBLIC.update(app)
                 now = {k: v for k, v in protocol.DEFAULT_CONFIG.items()}
                 if now != pristine:
                     diff = {k: (pristine.get(k), now.get(k)) for k in set(now) | set(pristine) if now.get(k) != pristine.get(k)}
@@ -475,6 +487,8 @@ def histories(chk, g, consts, rnd, max_paths):
             if pi < 1:
                 chk.sample({"kind": "history of connections replayed", "steps": labels})
         finally:
+            SHARED_PUBLIC.clear()
+            SHARED_PUBLIC["allow_public_attrs"] = True
             for hc in live.values():
                 try:
                     hc.close()
